@@ -1,7 +1,7 @@
 #!/bin/bash
 # tools/runall.sh [tier] [ids...]: run the claimed checks one after the other, print exit code, time and verdict lines
 tier=${1:-quick}; shift
-cd /verif
+cd "$(dirname "$(readlink -f "$0")")/.."
 python3 tools/selfcheck.py || exit 3
 ids="$@"
 [ -z "$ids" ] && ids=$(python3 -c "import json; print(' '.join(c['property_id'] for c in json.load(open('MANIFEST.json'))['checks']))")
